@@ -43,6 +43,10 @@ TRANSCRIBED = {
         ("tensordict/nn/sequence.py", "TensorDictSequential._run_module", "C14Seq.fwdKids (partial_tolerant)"),
         ("tensordict/nn/sequence.py", "TensorDictSequential.forward", "C14Seq.fwdNode / fwdSeqOut"),
         ("tensordict/nn/sequence.py", "TensorDictSequential.select_out_keys", "C14Seq.Node.seq sel"),
+        ("tensordict/nn/sequence.py", "TensorDictSequential.__getitem__", "C14Seq.inKeys / outKeys of the sub-list (stream keys_of_slice)"),
+        ("tensordict/nn/sequence.py", "TensorDictSequential.__setitem__", "C14Seq.inKeys / outKeys of the current list (stream keys_after_mutation)"),
+        ("tensordict/nn/sequence.py", "TensorDictSequential.__delitem__", "C14Seq.inKeys / outKeys of the current list (stream keys_after_mutation)"),
+        ("tensordict/nn/sequence.py", "TensorDictSequential._recompute_keys", "C14Seq.inKeys / outKeys of the current list"),
         ("tensordict/nn/utils.py", "_set_skip_existing_None.__call__", "C14Seq.skips"),
         ("tensordict/nn/probabilistic.py", "ProbabilisticTensorDictModule._dist_sample", "C14Prob.distSample"),
         ("tensordict/nn/probabilistic.py", "ProbabilisticTensorDictModule.forward", "C14Prob.moduleLogProbShape"),
